@@ -525,7 +525,7 @@ class CFG:
     def canon_text(self, n: Node, expr, depth=4) -> str:
         """Source text of expr that does not depend on how locals and private parameters are called: parameters become $N,
         aliases of pure chains are replaced by the chain, loop variables by elem(<iterable>)."""
-        return ast.unparse(self._canon(n, expr, depth))
+        return ast.unparse(self._canon(n, expr, depth, any_rhs=True))
 
     def symbolic(self, n: Node, expr, depth=8):
         """expr at n written out in terms of the parameters ($1, $2 ..): every local with one dominating definition is
